@@ -493,6 +493,27 @@ def np_tanh(x):
 # ---- sorting / extremes ------------------------------------------------------------------------------
 
 
+def _content_key(old, axis):
+    """canonical name for 'the sorted rearrangement of this content along axis': two sorts of the same
+    content (one inside the code, one stated in the contract) denote the same sequence.  Returns the name
+    and the list of non-sorted axes the content actually depends on (the parameters of the sequence)."""
+    import hashlib
+    from .sigma import contains
+    nd = old.ndim
+    canon = [z3.Int("P_sort") if d == axis else z3.Int(f"Q_sort{d}") for d in range(nd)]
+    c = ctx()
+    c._instantiating = True  # reading at the canonical indices must not register instantiation terms
+    try:
+        e = S.z(old.at(*[Sym(v) for v in canon]))
+    finally:
+        c._instantiating = False
+    e = z3.simplify(e)
+    params = [d for d in range(nd) if d != axis and contains(e, canon[d])]
+    ren = [(canon[d], z3.Int(f"Q{k}")) for k, d in enumerate(params)]
+    text = z3.substitute(e, *ren).sexpr() if ren else e.sexpr()
+    return hashlib.sha1(text.encode()).hexdigest()[:10], params
+
+
 def sort_inplace(t, axis=-1):
     """ndarray.sort(axis): in-place; returns None.  Result is a non-decreasing permutation along `axis`."""
     USED.add("numpy.ndarray.sort")
@@ -514,38 +535,55 @@ def sort_inplace(t, axis=-1):
             t.set_fn(lambda i, j: cols[j][i], "sort")
             return None
         raise Unsupported("concrete sort shape")
-    tag = c.fresh("srt", "Int")  # unique name stem
-    stem = str(tag)
-    srt = z3.Function(stem, *([z3.IntSort()] * nd), z3.RealSort())
-    perm = z3.Function(stem + "_perm", *([z3.IntSort()] * nd), z3.IntSort())
-    inv = z3.Function(stem + "_inv", *([z3.IntSort()] * nd), z3.IntSort())
-    others = [t.shape[k] for k in range(nd) if k != axis]
+    key, params = _content_key(old, axis)
+    stem = "srt_" + key
+    # sorted values as a function of (position along axis, the other indices the content depends on)
+    ar = 1 + len(params)
+    srt = z3.Function(stem, *([z3.IntSort()] * ar), z3.RealSort())
+    perm = z3.Function(stem + "_perm", *([z3.IntSort()] * ar), z3.IntSort())
+    inv = z3.Function(stem + "_inv", *([z3.IntSort()] * ar), z3.IntSort())
+    other_axes = [k for k in range(nd) if k != axis]
+    others = [t.shape[k] for k in other_axes]
+    ppos = [other_axes.index(d) for d in params]  # positions of the parameters among `rest`
 
     def full(i, rest):
         idx = list(rest)
         idx.insert(axis, i)
         return idx
 
-    # sorted: for a <= b: srt[a] <= srt[b]
-    def f_sorted(a, b, *rest):
-        za, zb = S.z(a), S.z(b)
-        r = [S.z(x) for x in rest]
-        return z3.Implies(za <= zb, srt(*full(za, r)) <= srt(*full(zb, r)))
+    def canon(i, rest):
+        return [i] + [rest[p] for p in ppos]
 
-    c.add_forall((n, n) + tuple(others), f_sorted, "sorted")
+    if ("sortfacts", stem) not in c.uf_cache:
+        c.uf_cache[("sortfacts", stem)] = True
 
-    # permutation: srt[a] = old[perm[a]], perm maps into range and inv is its inverse
-    def f_perm(a, *rest):
-        za = S.z(a)
-        r = [S.z(x) for x in rest]
-        p = perm(*full(za, r))
-        oldv = S.z(old.at(*[Sym(x) if z3.is_expr(x) else x for x in full(p, r)]))
-        q = inv(*full(za, r))
-        return z3.And(p >= 0, p < S.z(n), srt(*full(za, r)) == S.to_real(oldv), inv(*full(p, r)) == za,
-                      q >= 0, q < S.z(n), perm(*full(q, r)) == za)
+        # sorted: for a <= b: srt[a] <= srt[b]
+        def f_sorted(a, b, *rest):
+            za, zb = S.z(a), S.z(b)
+            r = [S.z(x) for x in rest]
+            return z3.Implies(za <= zb, srt(*canon(za, r)) <= srt(*canon(zb, r)))
 
-    c.add_forall((n,) + tuple(others), f_perm, "perm")
-    t.set_fn(lambda *idx: Sym(srt(*[S.z(i) for i in idx])), "sort")
+        c.add_forall((n, n) + tuple(others), f_sorted, "sorted")
+
+        # permutation: srt[a] = old[perm[a]], perm maps into range and inv is its inverse
+        def f_perm(a, *rest):
+            za = S.z(a)
+            r = [S.z(x) for x in rest]
+            p = perm(*canon(za, r))
+            oldv = S.z(old.at(*[Sym(x) if z3.is_expr(x) else x for x in full(p, r)]))
+            q = inv(*canon(za, r))
+            return z3.And(p >= 0, p < S.z(n), srt(*canon(za, r)) == S.to_real(oldv), inv(*canon(p, r)) == za,
+                          q >= 0, q < S.z(n), perm(*canon(q, r)) == za)
+
+        c.add_forall((n,) + tuple(others), f_perm, "perm")
+
+    def elem(*idx):
+        zi = [S.z(i) for i in idx]
+        a = zi.pop(axis)
+        c.add_index_term(a, n)
+        return Sym(srt(*canon(a, zi)))
+
+    t.set_fn(elem, "sort")
     t.sort_info = {"perm": perm, "inv": inv, "srt": srt, "old": old, "axis": axis}
     return None
 
@@ -609,7 +647,12 @@ def argextreme(t, axis, kind):
             return S.And(le(vk, t.at(a, j)), S.Implies(S.cmp("<", a, Sym(kf(zj))), lt(vk, t.at(a, j))))
 
         c.add_forall((n, m), f_ext, f"arg{kind}")
-        return Tensor((m,), lambda j: Sym(kf(S.z(j))), dtype="int")
+
+        def elem(j):
+            c.add_index_term(kf(S.z(j)), n)
+            return Sym(kf(S.z(j)))
+
+        return Tensor((m,), elem, dtype="int")
     raise Unsupported(f"arg{kind} shape/axis")
 
 
